@@ -107,6 +107,7 @@ type c04Env struct {
 	feeRate map[uint64]sdkmath.LegacyDec
 	okCnt   int
 	msgCnt  int
+	tiny    bool // tiny-price markets (prices around 10^-4 .. 10^-3): many truncations to zero in the matching engine
 }
 
 func c04Addr(n int) sdk.AccAddress {
@@ -914,14 +915,14 @@ func (e *c04Env) nextBlock(dt int64) {
 }
 
 func (e *c04Env) pickApp() uint64 {
-	if e.rng.Chance(3) {
+	if e.rng.Chance(2) {
 		return uint64([]int{0, 4, 7}[e.rng.Intn(3)])
 	}
 	return e.apps[e.rng.Intn(len(e.apps))]
 }
 
 func (e *c04Env) pickUser() int {
-	if e.rng.Chance(8) {
+	if e.rng.Chance(4) {
 		return 4
 	}
 	return e.rng.Intn(4)
@@ -934,7 +935,7 @@ func (e *c04Env) pickPair(app uint64) uint64 {
 			n++
 		}
 	}
-	if n == 0 || e.rng.Chance(3) {
+	if n == 0 || e.rng.Chance(2) {
 		return uint64(e.rng.Intn(6))
 	}
 	return uint64(1 + e.rng.Intn(n))
@@ -947,7 +948,7 @@ func (e *c04Env) pickPool(app uint64) uint64 {
 			n++
 		}
 	}
-	if n == 0 || e.rng.Chance(3) {
+	if n == 0 || e.rng.Chance(2) {
 		return uint64(e.rng.Intn(8))
 	}
 	return uint64(1 + e.rng.Intn(n))
@@ -969,6 +970,9 @@ func (e *c04Env) refPrice(app, pairID uint64) sdkmath.LegacyDec {
 			}
 		}
 	}
+	if e.tiny {
+		return sdkmath.LegacyNewDecWithPrec(int64(1+e.rng.Intn(30)), 4)
+	}
 	return sdkmath.LegacyNewDecWithPrec(int64(5+e.rng.Intn(30)), 1)
 }
 
@@ -989,15 +993,15 @@ func (e *c04Env) lifespan(app uint64) int64 {
 	if err == nil {
 		max = int64(params.MaxOrderLifespan / time.Second)
 	}
-	switch e.rng.Intn(10) {
+	switch e.rng.Intn(30) {
 	case 0:
 		return 0
-	case 1:
+	case 1, 2:
 		return max
-	case 2:
+	case 3:
 		return max + 1
-	case 3, 4:
-		return int64(1 + e.rng.Intn(30))
+	case 4, 5, 6, 7, 8, 9, 10, 11:
+		return int64(1 + e.rng.Intn(40))
 	default:
 		return int64(1 + e.rng.Intn(int(max)))
 	}
@@ -1011,23 +1015,28 @@ func (e *c04Env) genLimit(tiny bool) {
 	ref := e.refPrice(app, pairID)
 	// prices around the reference: crossing (likely matched), resting, and out of range
 	bps := int64(e.rng.Intn(900)) // up to 9 %
-	if e.rng.Chance(4) {
-		bps = int64(1000 + e.rng.Intn(300)) // around / beyond the 10 % limit
+	if e.rng.Chance(3) {
+		bps = int64(990 + e.rng.Intn(30)) // around / beyond the 10 % limit
 	}
 	sign := int64(1)
 	if e.rng.Chance(50) {
 		sign = -1
 	}
 	price := ref.Mul(sdkmath.LegacyNewDec(10000 + sign*bps)).QuoInt64(10000)
-	if tiny {
-		price = sdkmath.LegacyNewDecWithPrec(int64(1+e.rng.Intn(30)), 4)
-	}
 	if !price.IsPositive() {
 		price = sdkmath.LegacyNewDecWithPrec(1, 3)
 	}
 	amt := e.amount()
 	if tiny {
-		amt = sdkmath.NewInt(int64(1_000_000 + e.rng.Intn(30_000_000)))
+		amt = amt.MulRaw(int64(1 + e.rng.Intn(40)))
+	}
+	// keep price*amount above the module's minimum (100) in most cases; sometimes right at the boundary
+	minAmt := sdkmath.LegacyNewDec(100).Quo(price).Ceil().TruncateInt()
+	if amt.LT(minAmt) && !e.rng.Chance(6) {
+		amt = minAmt.AddRaw(int64(e.rng.Intn(3)) - 1).Add(sdkmath.NewInt(int64(e.rng.Intn(2))).Mul(minAmt))
+		if !amt.IsPositive() {
+			amt = minAmt
+		}
 	}
 	tp := e.tickPrec(app)
 	tick := amm.PriceToUpTick(price, tp)
@@ -1044,20 +1053,20 @@ func (e *c04Env) genLimit(tiny bool) {
 	}
 	need := offer.Add(fee)
 	msgOffer := need
-	switch e.rng.Intn(12) {
+	switch e.rng.Intn(30) {
 	case 0:
 		msgOffer = need.SubRaw(1) // one below what is needed
-	case 1:
+	case 1, 2:
 		msgOffer = need.AddRaw(1)
-	case 2:
+	case 3, 4, 5:
 		msgOffer = need.AddRaw(int64(e.rng.Intn(100000)))
-	case 3:
+	case 6:
 		msgOffer = offer // forgets the fee
 	}
 	if !msgOffer.IsPositive() {
 		msgOffer = sdkmath.OneInt()
 	}
-	e.order(app, ui, pairID, 1, buy, msgOffer, price, amt, e.lifespan(app), e.rng.Chance(2))
+	e.order(app, ui, pairID, 1, buy, msgOffer, price, amt, e.lifespan(app), e.rng.Chance(1))
 }
 
 func (e *c04Env) genMarket() {
@@ -1085,7 +1094,7 @@ func (e *c04Env) genMarket() {
 		}
 		fee := offer.ToLegacyDec().MulTruncate(params.SwapFeeRate).TruncateInt()
 		msgOffer = offer.Add(fee)
-		if e.rng.Chance(15) {
+		if e.rng.Chance(5) {
 			msgOffer = msgOffer.SubRaw(1)
 		}
 	}
@@ -1189,6 +1198,14 @@ func (e *c04Env) genCreatePool() {
 	y := sdkmath.NewInt(int64(1_000_000 + e.rng.Intn(2_000_000_000)))
 	ratio := int64(20 + e.rng.Intn(400)) // price 0.2 … 4.2
 	x := y.MulRaw(ratio).QuoRaw(100)
+	if e.tiny {
+		// price 0.0001 … 0.0031: base reserve large, quote reserve small
+		y = sdkmath.NewInt(int64(10_000_000_000 + e.rng.Intn(2_000_000_000))).MulRaw(int64(1 + e.rng.Intn(50)))
+		ratio = int64(1 + e.rng.Intn(30))
+		x = y.MulRaw(ratio).QuoRaw(10000)
+		e.createPool(app, ui, pairID, x, y, false, sdkmath.LegacyDec{}, sdkmath.LegacyDec{}, sdkmath.LegacyDec{})
+		return
+	}
 	if e.rng.Chance(5) {
 		x = sdkmath.NewInt(int64(e.rng.Intn(1_000_001))) // around MinInitialDepositAmount
 	}
@@ -1356,6 +1373,7 @@ func (e *c04Env) dt() int64 {
 }
 
 func (e *c04Env) runRandom(blocks int, mode int) {
+	e.tiny = mode == 4
 	e.setupMarkets()
 	for b := 0; b < blocks; b++ {
 		ntx := e.rng.Intn(7)
@@ -1441,6 +1459,58 @@ func (e *c04Env) witnessD4() {
 	e.nextBlock(4000)
 }
 
+// witnessLifecycle: a directed history through the branches the random generator reaches only sometimes: full
+// withdrawal (supply reaches zero, pool must be disabled), requests against a disabled pool, deposit that mints
+// nothing, farming queue maturing after a day, unfarm across queue and active position, partial fill then cancel,
+// same-batch cancel, expiry.
+func (e *c04Env) witnessLifecycle() {
+	d := func(s string) sdkmath.LegacyDec { return sdkmath.LegacyMustNewDecFromStr(s) }
+	n := func(x int64) sdkmath.Int { return sdkmath.NewInt(x) }
+	e.createPair(3, 0, e.coins[1], e.coins[2]) // app 3 (batch size 2 in variant 0), pair 1
+	e.createPair(3, 0, e.coins[2], e.coins[3]) // pair 2
+	e.createPool(3, 0, 2, n(50_000_000), n(50_000_000), false, sdkmath.LegacyDec{}, sdkmath.LegacyDec{}, sdkmath.LegacyDec{})      // pool 1 in pair 2
+	e.createPool(3, 1, 2, n(30_000_000), n(30_000_000), true, d("0.5"), d("2"), d("1"))                                               // ranged pool 2
+	e.createPool(3, 1, 1, n(9_000_000), n(9_000_000), false, sdkmath.LegacyDec{}, sdkmath.LegacyDec{}, sdkmath.LegacyDec{})          // pool 3 in pair 1
+	e.nextBlock(5)
+	// requests
+	e.deposit(3, 2, 1, n(1_000_000), n(1_000_000))
+	e.deposit(3, 2, 1, n(1), n(1)) // mints nothing => fails at execution, refunded
+	e.depositAndFarm(3, 3, 1, n(2_000_000), n(2_000_000))
+	e.withdraw(3, 0, 1, e.poolCoinBalance(0, 3, 1).QuoRaw(4), false)
+	e.nextBlock(5)
+	e.nextBlock(5)
+	// farming
+	e.farm(3, 2, 1, e.poolCoinBalance(2, 3, 1).QuoRaw(2), false)
+	e.nextBlock(10)
+	e.farm(3, 2, 1, e.poolCoinBalance(2, 3, 1).QuoRaw(2), false)
+	e.unfarm(3, 2, 1, n(10), false)
+	e.nextBlock(86400 + 5) // both queue entries mature
+	e.nextBlock(5)
+	e.farm(3, 2, 1, n(1000), false)
+	e.unfarm(3, 2, 1, n(1500), false) // across the queue into the active position
+	e.unfarmAndWithdraw(3, 3, 1, n(100_000))
+	e.nextBlock(5)
+	// the creator of pool 3 withdraws the entire supply: supply 0 => disabled
+	e.withdraw(3, 1, 3, e.poolCoinBalance(1, 3, 3), false)
+	e.nextBlock(5)
+	e.nextBlock(5)
+	e.deposit(3, 2, 3, n(1_000_000), n(1_000_000)) // disabled pool: rejected
+	e.nextBlock(5)
+	// orders: partial fill against a resting order, cancel in the same batch (rejected) and later (accepted), expiry
+	e.order(3, 2, 1, 1, false, n(3_000_000), d("1.0"), n(2_000_000), 600, false)
+	e.cancel(3, 2, 1, 1) // same batch
+	e.order(3, 3, 1, 1, true, n(1_000_000), d("1.0"), n(500_000), 30, false)
+	e.nextBlock(5)
+	e.nextBlock(5)
+	e.cancel(3, 3, 1, 1) // not the owner
+	e.cancel(3, 2, 1, 1) // owner, later batch: partially filled order refunded
+	e.order(3, 3, 1, 1, true, n(200), d("1.0"), n(150), 20, false)
+	e.order(3, 2, 2, 2, true, n(5_000_000), sdkmath.LegacyZeroDec(), n(1_000_000), 20, false) // market order, no last price yet => rejected
+	e.nextBlock(50)
+	e.nextBlock(50) // expired
+	e.nextBlock(5)
+}
+
 func c04Run(t *testing.T, prop string) {
 	tr := OpenTrace(t, strings.ToLower(prop)+".trace")
 	defer tr.Close(t)
@@ -1449,6 +1519,8 @@ func c04Run(t *testing.T, prop string) {
 	e := c04NewEnv(t, tr, rng, prop, 0)
 	e.witnessD4()
 	tr.Set("witness_D4_msgs", e.msgCnt)
+	e = c04NewEnv(t, tr, rng, prop, 0)
+	e.witnessLifecycle()
 	nseq := scale(10, 120)
 	blocks := scale(45, 110)
 	if os := envInt("VERIF_SEARCH", 0); os == 1 {
